@@ -143,6 +143,25 @@ class Paint(ABC):
                     )
                 )
 
+    def depth_first(self) -> Generator[PaintTraverseContext, None, None]:
+        # pre-order: leaves are visited in z-order no matter how deeply they are wrapped
+        stack = [PaintTraverseContext((), self, Affine2D.identity())]
+        while stack:
+            context = stack.pop()
+            yield context
+            transform = Affine2D.compose_ltr(
+                (
+                    context.transform,
+                    context.paint.gettransform(),
+                )
+            )
+            for paint in reversed(tuple(context.paint.children())):
+                stack.append(
+                    PaintTraverseContext(
+                        context.path + (context.paint,), paint, transform
+                    )
+                )
+
     def children(self) -> Iterable["Paint"]:
         return ()
 
